@@ -910,7 +910,12 @@ impl Model {
             by_batch
         };
         let _ = required;
-        if !missing.is_empty() && !optional && competing + 1 < window_free.min(90) {
+        // QoS 0: the replay is cut to max_outgoing_packet_count exactly, so a set that fits
+        // must arrive completely; QoS > 0: the free window at the moment of the replay is only
+        // bounded, hence the margin
+        let exact = qos == 0 && self.conns[serial].subs[i].old_qos.is_empty();
+        let fits = if exact { competing <= window_free.min(89) } else { competing + 1 < window_free.min(90) };
+        if !missing.is_empty() && !optional && fits {
             fail!(
                 "retained:missing_on_new_subscription",
                 "new subscription {filter:?} (qos {qos}) did not receive the retained message of {missing:?}"
